@@ -136,6 +136,45 @@ func runC05(o *cli.Opts, run *evid.Run) {
 		run.Case("multi/neg", true, key, false, nil)
 	}
 
+	sd, errd := rmon.Compile(rmon.BN254, &PDerivedCircuit{})
+	if errd != nil {
+		run.Violate("C05/compile-derived", "derived-operand harness does not compile: "+errd.Error(), nil)
+		return
+	}
+	mulmod := func(a, b *big.Int) *big.Int { return new(big.Int).Mod(new(big.Int).Mul(a, b), ref.R) }
+	addmod := func(vs ...*big.Int) *big.Int {
+		s := new(big.Int)
+		for _, v := range vs {
+			s.Add(s, v)
+		}
+		return s.Mod(s, ref.R)
+	}
+	checkDerived := func(key string, a, b *big.Int, engine bool) {
+		if !run.Wants(key) {
+			return
+		}
+		v := addmod(a, one)
+		w := mulmod(a, b)
+		u := addmod(mulmod(b, big.NewInt(3)), a, big.NewInt(7))
+		as := &PDerivedCircuit{A: a, B: b, H1: ref.H2(v, v), H2: ref.H1(v), H3: ref.H2(v, w), H4: ref.H2(u, v)}
+		sample := map[string]any{"a": "0x" + a.Text(16), "b": "0x" + b.Text(16)}
+		res := sd.Solve(as, nil)
+		if !res.Accepted || res.EvalErr != "" {
+			run.Violate(key, fmt.Sprintf("gadgets called on derived, reused operands (a+1, a*b, 3b+a+7) disagree with the reference (%v %s)", res.Err, res.EvalErr), sample)
+		}
+		run.Case("derived/pos", true, key, res.Accepted, sample)
+		if engine {
+			if err := test.IsSolved(&PDerivedCircuit{}, as, rmon.BN254); err != nil {
+				run.Violate(key+"/engine", "test engine: gadgets on derived, reused operands disagree with the reference: "+err.Error(), sample)
+			}
+			h1 := ref.H2(a, b)
+			m := &PMultiCircuit{A: a, B: b, H1: h1, H2: h1, H3: ref.H2(h1, a), H4: ref.H1(a), H5: ref.H2(b, a)}
+			if err := test.IsSolved(&PMultiCircuit{}, m, rmon.BN254); err != nil {
+				run.Violate(key+"/engine-multi", "test engine: repeated gadget calls on shared operands disagree with the reference: "+err.Error(), sample)
+			}
+			run.Add("engine_runs", 2)
+		}
+	}
 	sp := c05Specials()
 	// specials: singletons, and pairs among the first few + sampled pairs among the rest
 	cli.ForEach(len(sp), 0, func(i int) {
@@ -172,6 +211,7 @@ func runC05(o *cli.Opts, run *evid.Run) {
 		}
 		if i%8 == 0 {
 			checkMulti(key+"/multi", a, b)
+			checkDerived(key+"/derived", a, b, i%400 == 0)
 		}
 	})
 	run.Require("engine runs", run.GetInt("engine_runs"), 10)
